@@ -1,7 +1,14 @@
 """C13 -- .g2o export followed by import is lossless (writer o reader = id on the text model)."""
 from ..poly import Poly
 from ..interp import Arr, Pose, Obj, ClassRef, sym_pose, PathRaise
-from ..algebra import run_obligation, run_tasks, record, ObFail, CDIM
+from ..algebra import run_obligation as _run_obligation, run_tasks, record, ObFail, CDIM
+from .c18 import distinct_names_hook
+
+
+def run_obligation(pkg, fn, **kw):
+    kw.setdefault("hook", distinct_names_hook)
+    return _run_obligation(pkg, fn, **kw)
+
 from ..g2o import (same_vertex, same_edge, same_param, build_vertex, build_odometry, build_landmark, build_param, expect_str,
                    no_int_through_float, mark_int)
 
@@ -109,7 +116,8 @@ def refusal(kind):
 def graph_roundtrip(cycles):
     def fn(it):
         it.vfs = {}
-        vs = [build_vertex(it, c, "v%d" % k) for k, c in enumerate(["PoseSE2", "PoseR2", "PoseSE3", "PoseR3", "PoseSE2", "PoseSE3"])]
+        # the last two vertices are not referred to by any edge
+        vs = [build_vertex(it, c, "v%d" % k) for k, c in enumerate(["PoseSE2", "PoseR2", "PoseSE3", "PoseR3", "PoseSE2", "PoseSE3", "PoseR2", "PoseSE3"])]
         p2 = build_param(it, "G2OParameterSE2Offset", "p2")
         p3 = build_param(it, "G2OParameterSE3Offset", "p3")
         ident = it.call_classmethod(ClassRef("PoseSE2"), "identity", [])
